@@ -176,6 +176,8 @@ def run(repo, rep):
     _log_rule(repo, rep, 'C10', 'C10.Z2')
     from ..api_pitfalls import truth_rule as _truth_rule
     _truth_rule(repo, rep, 'C10', 'C10.Z4')
+    from ..api_pitfalls import attribute_rule as _attribute_rule
+    _attribute_rule(repo, rep, 'C10', 'C10.Z5')
     hier = exc_hierarchy(repo)
     rep.trust('PS3.8 Annex D.1: maximum length 0 means no limit; the value bounds the length field of P-DATA-TF PDUs')
     rep.rule('C10.X1', 'every adoption of the peer\'s announced maximum is conditional on the peer value being non-zero and on '
